@@ -126,7 +126,14 @@ fn run_hist(args: &Args) {
             todo.push((format!("# case {} seed={} sqlite={}", i, args.seed, mask), nreps, mask, lines));
         }
     }
+    let trace = std::env::var("TCH_TRACE").is_ok();
     for (hdr, nreps, mask, lines) in todo {
+        if trace {
+            eprintln!("{}", hdr);
+            for l in &lines {
+                eprintln!("  {}", l);
+            }
+        }
         writeln!(ops, "{}", hdr).unwrap();
         writeln!(imp, "{}", hdr).unwrap();
         let result = std::panic::catch_unwind(std::panic::AssertUnwindSafe(|| {
